@@ -1,30 +1,18 @@
-//! vh — verification harness: runs the real dicom-rs crates (path deps on /repo)
-//! on generated cases and prints them as Coq terms for the model comparison.
-mod util;
-mod c17;
+//! vhc — common part of the verification harness: PRNG, Coq term printers,
+//! case records and the command-line driver shared by every group binary.
+pub mod util;
+pub use util::*;
 
 use std::io::Write;
-use util::*;
 
 fn usage() -> ! {
-    eprintln!("usage: vh <Cnn> cases --seed S --n N --out DIR [--shards K] [--tier quick|thorough]\n       vh <Cnn> tables --out DIR");
+    eprintln!("usage: vh_<group> <Cnn> cases --seed S --n N --out DIR [--shards K] [--tier quick|thorough]\n       vh_<group> <Cnn> tables --out DIR");
     std::process::exit(2)
 }
 
-fn cases_for(prop: &str, ctx: &Ctx) -> Vec<Case> {
-    match prop {
-        "C17" => c17::cases(ctx),
-        _ => { eprintln!("unknown property {prop}"); std::process::exit(2) }
-    }
-}
-
-fn tables_for(prop: &str, out: &str) {
-    match prop {
-        _ => { let _ = out; }
-    }
-}
-
-fn main() {
+/// Entry point of a group binary. `cases(prop, ctx)` returns None for an unknown property;
+/// `tables(prop, out_dir)` writes regenerated Coq tables (Gen/*.v) into out_dir.
+pub fn run_main(cases: impl Fn(&str, &Ctx) -> Option<Vec<Case>>, tables: impl Fn(&str, &str) -> bool) {
     std::panic::set_hook(Box::new(|_| {}));
     let args: Vec<String> = std::env::args().collect();
     if args.len() < 3 { usage() }
@@ -46,7 +34,7 @@ fn main() {
     match cmd {
         "cases" => {
             let ctx = Ctx { seed, n, tier };
-            let cases = cases_for(prop, &ctx);
+            let cases = match cases(prop, &ctx) { Some(c) => c, None => { eprintln!("unknown property {prop}"); std::process::exit(2) } };
             std::fs::create_dir_all(&out).unwrap();
             let shards = shards.max(1).min(cases.len().max(1));
             let mut files: Vec<_> = (0..shards)
@@ -68,7 +56,7 @@ fn main() {
             }
             println!("cases={} shards={}", cases.len(), shards);
         }
-        "tables" => tables_for(prop, &out),
+        "tables" => { if !tables(prop, &out) { eprintln!("no tables for {prop}"); std::process::exit(2) } }
         _ => usage(),
     }
 }
